@@ -237,6 +237,9 @@ func checkC17(c *Ctx) {
 		}
 		os.RemoveAll(base)
 	}
+	// every fault-free schedule of process steps of the two pipelines (TLC, Pipeline1X / PipelineX), forced on the -race build
+	e.home = c.Scratch
+	total += checkGatedDeterminism(c, e, race)
 	c.CountEval(int64(total))
 	// traces of racy-build runs on generated repositories are behaviours of Scan
 	var cs []cases.ScanCase
